@@ -10,10 +10,18 @@ case      {"loop": select|asyncio|tornado|twisted|trio|zmq, "screen": raw|legacy
            a `close` key reaching that probe closes it),
            optional "swap": {"key": k, "where": "key"|"unh"}  (the probe's keypress / the unhandled-input handler
            that sees k assigns loop.widget = a fresh probe, in the middle of whatever batch k is in)}
-          events: ["keys", k1, k2, ...] (written to the terminal with one write), ["mouse", button, col, row],
+          events: ["keys", k1, k2, ...] (written to the terminal with one write),
+          ["mouse", button, col, row(, action, modifier)] (an SGR mouse report; action press | release | drag,
+          modifier "" | shift | meta | ctrl; default: a plain press),
           ["resize", cols, rows] (TIOCSWINSZ + SIGWINCH), ["alarm"] (set_alarm_in 10 ms), ["pipe"] (a write
-          to a watch_pipe descriptor), ["file"] (a write to a pipe watched with watch_file).  The last event
+          to a watch_pipe descriptor), ["file"] (a write to a pipe watched with watch_file),
+          ["burst", [keys | mouse | resize sub-events], [[sub index, byte offset], ...]] (type-ahead: the
+          sub-events arrive back to back without waiting for a redraw; every cut [i, o] starts a new piece
+          before byte o of sub-event i (o = 0: at the boundary; inside a key's byte sequence otherwise), and a
+          piece is produced as soon as the screen has read the previous one - so a multi-byte key may arrive
+          over several reads of the tty and a resize may share an input batch with keys).  The last event
           is always the key 'q', which the unhandled-input handler answers with ExitMainLoop.
+          optional "faults": false  (a delivery-sweep unit: run once, no exception injected)
 
 run       One forked child per case.  The child opens a pty pair, gives the slave side (two descriptors of their
           own, like stdin / stdout) to a real ``urwid.display.raw.Screen`` (subclassed only to report
@@ -24,7 +32,11 @@ run       One forked child per case.  The child opens a pty pair, gives the slav
           counting run saw that callback; tornado adds or drops an idle redraw from run to run).  The session is
           causally chained: the next scripted event is produced only when the screen has just been drawn (alarms:
           when the previous event reaches its callback, never from a draw) and the previous event has been seen
-          by the input filter, so no real-time delay carries any meaning.  After run() the child reads
+          by the input filter, so no real-time delay carries any meaning; the pieces of a burst are chained to
+          the screen's reads instead (the Screen subclass also reports "get_available_raw_input() returned";
+          complete_wait is raised to COMPLETE_WAIT so that the wait for the rest of a sequence cannot expire
+          on a busy machine before the continuation, which is already in the tty's buffer, is read).  The
+          probes log the size they are given.  After run() the child reads
           everything the terminal received and reports the log, the outcome of run(), screen.started, termios of
           the slave before/after, the three signal handlers before/after and the terminal bytes (per draw, final).
           No callback for STALL seconds = the child reports a stall instead.
@@ -38,6 +50,8 @@ model     "which probe is topmost when this key is processed": `base` until an o
 oracle    check_report() -> every failing clause:
             input-order / call-order / call-missing / call-unexpected   filter -> widget -> unhandled handler
             wrong-widget                                                the key went to a probe that is not topmost
+            widget-size                                                 keypress / mouse_event was not given a (cols, rows)
+                                                                        the terminal has had in this session
             draw-not-current, no-redraw-before-wait                     the reference terminal shows the state
             exit-not-clean, exception-swallowed, exception-changed, run-did-not-end, spurious-end
             screen-still-started, termios-not-restored, signal-not-restored:<SIG>, terminal-modes-not-restored
@@ -110,11 +124,17 @@ STALL = 1.0  # seconds without any callback before the child reports a stall
 STALL_CONFIRM = 4.0  # ... in the confirmation run
 CHILD_LIMIT = 14.0  # seconds before the parent kills the child (inconclusive)
 
+COMPLETE_WAIT = 8.0  # Screen.set_input_timeouts(complete_wait=...): see the module docstring ("run")
+
 KEYS = {
     "a": "a", "b": "b", "x": "x", "y": "y", "z": "z", "q": "q", " ": " ", "enter": "\n", "tab": "\t",
     "up": "\x1b[A", "down": "\x1b[B", "f5": "\x1b[15~", "page up": "\x1b[5~", "meta a": "\x1ba",
     "ctrl l": "\x0c",
+    # characters of 2, 3 and 4 UTF-8 bytes (the encoding is utf-8 in every run)
+    "\u00e9": "\u00e9", "\u20ac": "\u20ac", "\U0001d11e": "\U0001d11e",
 }
+MOUSE_ACTIONS = ("press", "release", "drag")
+MOUSE_MODS = {"": 0, "shift": 4, "meta": 8, "ctrl": 16}  # xterm: the modifier bits of the button code
 EXC_NAME = {"exit": "ExitMainLoop", "boom": "Boom", "abort": "SystemExit"}
 CALLBACKS = ("filter", "key", "mouse", "unh", "alarm", "file", "pipe", "render")
 REDRAW_KEY = "ctrl l"  # the documented Command.REDRAW_SCREEN binding
@@ -138,17 +158,140 @@ Abort = SystemExit  # ... and one that is not an Exception subclass: a callback 
 # expectations derived from the case alone
 
 
+def mouse_parts(ev):
+    """["mouse", button, col, row(, action, modifier)] -> (button, col, row, action, modifier)"""
+    action = ev[4] if len(ev) > 4 else "press"
+    mod = ev[5] if len(ev) > 5 else ""
+    return ev[1], ev[2], ev[3], action, mod
+
+
+def mouse_ok(ev):
+    if len(ev) not in (4, 6) or not all(isinstance(x, int) for x in ev[1:4]):
+        return False
+    button, col, row, action, mod = mouse_parts(ev)
+    if action not in MOUSE_ACTIONS or mod not in MOUSE_MODS or col < 0 or row < 0:
+        return False
+    return 1 <= button <= (5 if action == "press" else 3)  # the wheel (4, 5) only "presses"
+
+
+def mouse_input(ev):
+    """the input event urwid documents for the report (manual, "Mouse Input": (event, button, x, y) with x, y
+    counted from 0, event 'mouse press' | 'mouse release' | 'mouse drag', prefixed by 'shift ' / 'meta ' /
+    'ctrl ' when that key is held)"""
+    button, col, row, action, mod = mouse_parts(ev)
+    return [f"{mod + ' ' if mod else ''}mouse {action}", button, col, row]
+
+
+def mouse_bytes(ev):
+    """the SGR (1006) report of an xterm: CSI < code ; col+1 ; row+1 M (m = release); code = button - 1 for
+    buttons 1-3, 64 / 65 for the wheel, + 32 while dragging, + 4 / 8 / 16 for shift / meta / ctrl"""
+    button, col, row, action, mod = mouse_parts(ev)
+    code = (button - 1 if button <= 3 else 64 + button - 4) + (32 if action == "drag" else 0) + MOUSE_MODS[mod]
+    return f"\x1b[<{code};{col + 1};{row + 1}{'m' if action == 'release' else 'M'}".encode()
+
+
+def event_bytes(ev):
+    if ev[0] == "keys":
+        return "".join(KEYS[k] for k in ev[1:]).encode()
+    if ev[0] == "mouse":
+        return mouse_bytes(ev)
+    raise AssertionError(ev)
+
+
+def burst_parts(ev):
+    return ev[1], (ev[2] if len(ev) > 2 else [])
+
+
+def event_ok(ev, inner=False):
+    if not isinstance(ev, list) or not ev:
+        return False
+    t = ev[0]
+    if t == "keys":
+        return len(ev) > 1 and all(k in KEYS for k in ev[1:]) and not (inner and "q" in ev[1:])
+    if t == "mouse":
+        return mouse_ok(ev)
+    if t == "resize":
+        return len(ev) == 3 and all(isinstance(x, int) and x > 0 for x in ev[1:])
+    if inner:
+        return False
+    if t in ("alarm", "pipe", "file"):
+        return len(ev) == 1
+    if t == "burst":
+        if len(ev) not in (2, 3) or not ev[1] or not all(event_ok(sub, True) for sub in ev[1]):
+            return False
+        subs, cuts = burst_parts(ev)
+        for c in cuts:
+            if not (isinstance(c, list) and len(c) == 2 and 0 <= c[0] < len(subs) and c != [0, 0]):
+                return False
+            n = 1 if subs[c[0]][0] == "resize" else len(event_bytes(subs[c[0]]))
+            if not 0 <= c[1] < n:
+                return False
+        return True
+    return False
+
+
+def pieces_of(ev):
+    """the pieces an input event is produced in: lists of ["bytes", hex] / ["resize", cols, rows] atoms.
+    The atoms of one piece are produced back to back; the next piece when the screen has read this one."""
+    if ev[0] == "resize":
+        return [[["resize", ev[1], ev[2]]]]
+    if ev[0] in ("keys", "mouse"):
+        return [[["bytes", event_bytes(ev).hex()]]]
+    subs, cuts = burst_parts(ev)
+    cutset = {(i, o) for i, o in cuts}
+    pieces = [[]]
+
+    def cut():
+        if pieces[-1]:
+            pieces.append([])
+
+    for i, sub in enumerate(subs):
+        if sub[0] == "resize":
+            if (i, 0) in cutset:
+                cut()
+            pieces[-1].append(["resize", sub[1], sub[2]])
+            continue
+        for o, byte in enumerate(event_bytes(sub)):
+            if (i, o) in cutset:
+                cut()
+            if pieces[-1] and pieces[-1][-1][0] == "bytes":
+                pieces[-1][-1][1] += f"{byte:02x}"
+            else:
+                pieces[-1].append(["bytes", f"{byte:02x}"])
+    return pieces
+
+
+def inputs_of(ev):
+    """the input events one scripted event stands for, in arrival order"""
+    if ev[0] == "keys":
+        return list(ev[1:])
+    if ev[0] == "mouse":
+        return [mouse_input(ev)]
+    if ev[0] == "resize":
+        return ["window resize"]
+    if ev[0] == "burst":
+        return [x for sub in ev[1] for x in inputs_of(sub)]
+    return []
+
+
 def expected_inputs(case):
     """the input events of the script, in order, as MainLoop must present them to the filter"""
-    out = []
-    for ev in case["script"]:
-        if ev[0] == "keys":
-            out.extend(ev[1:])
-        elif ev[0] == "mouse":
-            out.append(["mouse press", ev[1], ev[2], ev[3]])
-        elif ev[0] == "resize":
-            out.append("window resize")
-    return out
+    return [x for ev in case["script"] for x in inputs_of(ev)]
+
+
+def resize_in_burst(case):
+    """a resize that arrives together with other input: its place among the keys is the kernel's signal-vs-read
+    order (the raw screen reports a resize after the bytes it read in the same go), which is not asserted"""
+    return any(ev[0] == "burst" and any(sub[0] == "resize" for sub in ev[1]) for ev in case["script"])
+
+
+def same_input(seen, exp):
+    """is the input event the filter was given the one the terminal sent? (a release may be reported with
+    button 0: "will often not have information about which button was released")"""
+    if isinstance(seen, list) and isinstance(exp, list) and len(seen) == len(exp) == 4:
+        return seen[0] == exp[0] and seen[2:] == exp[2:] and (
+            seen[1] == exp[1] or (exp[0].endswith("mouse release") and seen[1] == 0))
+    return seen == exp
 
 
 def apply_filter(case, keys):
@@ -209,6 +352,9 @@ def model_unh(case, m, key):
 
 def malformed(case):
     tree, sw = case.get("tree"), case.get("swap")
+    script = case["script"]
+    if not script or script[-1] != ["keys", "q"] or not all(event_ok(ev) for ev in script):
+        return True
     if tree and (tree.get("kind") != "popup" or not case["pop_ups"]):
         return True
     return bool(sw and (sw["key"] in ("q", REDRAW_KEY) or sw["where"] not in ("key", "unh")))
@@ -244,7 +390,8 @@ class _Harness:
         self.exc = None
         self.script = case["script"]
         self.pos = 0
-        self.outstanding = None
+        self.outstanding = None  # ["input", input events not yet seen by the filter, a "window resize" is due]
+        self.pending = []  # pieces of the current input event that have not been produced yet
         self.state = 0
         self.ml = None
         self.pipe_wr = None
@@ -293,15 +440,23 @@ class _Harness:
         o = self.outstanding
         if o is not None and o[0] == "input":
             for k in keys:
-                if _jsonable(k) == o[1]:
-                    self.outstanding = None
+                k = _jsonable(k)
+                if k == "window resize":
+                    o[2] = False
+                    continue
+                for j, want in enumerate(o[1]):
+                    if same_input(k, want):
+                        del o[1][j]
+                        break
+            if not o[1] and not o[2] and not self.pending:
+                self.outstanding = None
             if self.outstanding is None and self.next_is_alarm():
                 self.advance()  # alarms are set from input / alarm / watch callbacks or before run(), never from a draw
         return apply_filter(self.case, [k if isinstance(k, str) else tuple(k) for k in keys])
 
-    def key_event(self, name, key):
+    def key_event(self, name, key, size):
         """a probe (or the launcher, on behalf of the base probe) is given a key"""
-        self.enter("key", key, name)
+        self.enter("key", key, name, size)
         self.state += 1
         sw = self.case.get("swap")
         if sw and sw["where"] == "key" and key == sw["key"]:
@@ -351,6 +506,24 @@ class _Harness:
         return self.pos < len(self.script) and self.script[self.pos][0] == "alarm"
 
     # -- the driver -------------------------------------------------------------------------
+    def produce(self):
+        """the next piece of the current input event arrives at the terminal"""
+        piece = self.pending.pop(0)
+        self.log.append(["piece", self.pos - 1, piece])
+        for atom in piece:
+            if atom[0] == "bytes":
+                os.write(self.master, bytes.fromhex(atom[1]))
+            else:
+                self.outstanding[2] = True
+                fcntl.ioctl(self.master, termios.TIOCSWINSZ, struct.pack("HHHH", atom[2], atom[1], 0, 0))
+                os.kill(os.getpid(), signal.SIGWINCH)
+
+    def on_read(self):
+        """the screen has just read what the terminal sent so far"""
+        self.touch()
+        if self.pending and self.exc is None:
+            self.produce()
+
     def on_draw(self):
         self.touch()
         self.log.append(["draw", self.drain().hex()])
@@ -364,16 +537,10 @@ class _Harness:
         self.log.append(["inject", self.pos, list(ev)])
         self.pos += 1
         t = ev[0]
-        if t == "keys":
-            self.outstanding = ("input", ev[-1])
-            os.write(self.master, "".join(KEYS[k] for k in ev[1:]).encode())
-        elif t == "mouse":
-            self.outstanding = ("input", ["mouse press", ev[1], ev[2], ev[3]])
-            os.write(self.master, f"\x1b[<{ev[1] - 1};{ev[2] + 1};{ev[3] + 1}M".encode())
-        elif t == "resize":
-            self.outstanding = ("input", "window resize")
-            fcntl.ioctl(self.master, termios.TIOCSWINSZ, struct.pack("HHHH", ev[2], ev[1], 0, 0))
-            os.kill(os.getpid(), signal.SIGWINCH)
+        if t in ("keys", "mouse", "resize", "burst"):
+            self.outstanding = ["input", [x for x in inputs_of(ev) if x != "window resize"], False]
+            self.pending = pieces_of(ev)
+            self.produce()
         elif t == "alarm":
             self.outstanding = ("alarm",)
             self.ml.set_alarm_in(0.01, self.alarm_cb, self.pos - 1)
@@ -476,6 +643,11 @@ def _child_body(case, stall, emit):
             super().draw_screen(size, canvas)
             h.on_draw()
 
+        def get_available_raw_input(self):
+            codes = super().get_available_raw_input()
+            h.on_read()
+            return codes
+
     tree = case.get("tree") or {}
 
     class Probe(urwid.Widget):
@@ -489,18 +661,18 @@ def _child_body(case, stall, emit):
             h.widgets.append(self)
 
         def render(self, size, focus=False):
-            h.enter("render", h.state, list(size), self.name)
+            h.enter("render", h.state, _jsonable(size), self.name)
             return urwid.SolidCanvas(glyph(self.name, h.state), size[0], size[1])
 
         def keypress(self, size, key):
-            h.key_event(self.name, key)
+            h.key_event(self.name, key, size)
             if self.name == "pop" and key in tree.get("close", []):
                 self.launcher.close_pop_up()
                 return None
             return None if widget_handles(case, key) else key
 
         def mouse_event(self, size, event, button, col, row, focus):
-            h.enter("mouse", [event, button, col, row], self.name)
+            h.enter("mouse", [event, button, col, row], self.name, size)
             h.state += 1
             for w in h.widgets:
                 w._invalidate()
@@ -520,7 +692,7 @@ def _child_body(case, stall, emit):
 
         def keypress(self, size, key):
             if key in tree.get("open", []):
-                h.key_event("base", key)
+                h.key_event("base", key, size)
                 self.open_pop_up()
                 return None
             return self._original_widget.keypress(size, key)
@@ -543,6 +715,7 @@ def _child_body(case, stall, emit):
             setattr(object.__getattribute__(self, "_real"), name, value)
 
     real = RecScreen(input=fin, output=fout, bracketed_paste_mode=case["bp"], focus_reporting=case["focus"])
+    real.set_input_timeouts(complete_wait=COMPLETE_WAIT)
     if case["screen"] == "legacy":
         screen, loop = LegacyScreen(real), None
     else:
@@ -701,7 +874,11 @@ def check_report(case, rep):
     cols, rows = case["size"]
     vt = VT(cols, rows)
     exp_inputs = expected_inputs(case)
+    relaxed = resize_in_burst(case)  # then only the number of resize events seen is compared, not their place
+    exp_plain = [x for x in exp_inputs if x != "window resize"]
     seen_inputs = []  # what the filter has been given so far
+    sizes = [[cols, rows]]  # every size the terminal has had
+    resizes = 0  # resizes the terminal has gone through
     queue = []  # callbacks still owed for the last filter call
     state = 0  # number of input events the widgets have received
     model = model_start(case)  # which probe is topmost
@@ -723,11 +900,15 @@ def check_report(case, rep):
                 who = f"{who} (invocation {e[1]})"
             continue
         if kind == "inject":
-            ev = e[2]
-            if ev[0] == "resize":
-                vt.resize(ev[1], ev[2])
-                cols, rows = ev[1], ev[2]
-                resize_pending = True
+            continue
+        if kind == "piece":
+            for atom in e[2]:
+                if atom[0] == "resize":
+                    vt.resize(atom[1], atom[2])
+                    cols, rows = atom[1], atom[2]
+                    sizes.append([cols, rows])
+                    resizes += 1
+                    resize_pending = True
             continue
         if kind == "prev-handler":
             continue
@@ -775,10 +956,17 @@ def check_report(case, rep):
                     f"input; log: {_fmt(log[:pos + 1])}",
                 )]
             seen_inputs.extend(keys)
-            if seen_inputs != exp_inputs[: len(seen_inputs)]:
+            if relaxed:
+                seen_plain = [x for x in seen_inputs if x != "window resize"]
+                in_order = len(seen_inputs) - len(seen_plain) <= resizes
+            else:
+                seen_plain, in_order = seen_inputs, len(seen_inputs) <= len(exp_inputs)
+            want = exp_plain if relaxed else exp_inputs
+            if not in_order or len(seen_plain) > len(want) or not all(map(same_input, seen_plain, want)):
                 return [Violation(
                     "input-order",
-                    f"the input filter has been given {seen_inputs}, the terminal sent {exp_inputs}",
+                    f"the input filter has been given {seen_inputs}, the terminal sent {exp_inputs}"
+                    + (f" ({resizes} resizes so far)" if relaxed else ""),
                 )]
             if "window resize" in keys:
                 resize_pending = False
@@ -826,6 +1014,18 @@ def check_report(case, rep):
                     f"{got[1]!r} was given to probe {e[3]!r}; the topmost widget when its turn came is "
                     f"{queue[0][2]!r}; log: {_fmt(log[:pos + 1])}",
                 )]
+            if kind != "unh":
+                # keypress(size, key) / mouse_event(size, ...): the topmost widget is a box widget, its size is the
+                # screen's (cols, rows); weak reading: any size the terminal has had so far (a batch that holds a
+                # resize may be processed with the old or the new one).  The pop-up's size is Overlay geometry.
+                size = e[4]
+                ok = isinstance(size, list) and len(size) == 2 and all(isinstance(x, int) and x > 0 for x in size)
+                if not ok or (e[3] != "pop" and size not in sizes):
+                    return [Violation(
+                        "widget-size",
+                        f"{got[1]!r} was passed to probe {e[3]!r} with size {size!r}; the terminal has had the "
+                        f"sizes {sizes}; log: {_fmt(log[:pos + 1])}",
+                    )]
             model = queue.pop(0)[3]
             if kind in ("key", "mouse"):
                 state += 1
@@ -850,7 +1050,8 @@ def check_report(case, rep):
         if o is not None and o[0] == "input":
             return [Violation(
                 "input-not-delivered",
-                f"{o[1]} was sent to the terminal and never reached the input filter; log: {_fmt(log)}",
+                f"{o[1] or 'window resize'} was sent to the terminal and never reached the input filter; "
+                f"log: {_fmt(log)}",
             )]
         return "stall-unattributed"
 
@@ -997,28 +1198,111 @@ FIXED_SESSIONS = [
     # ... and by the unhandled-input handler that sees 'y', typed into an open pop-up
     {"handled": [], "filter": {"drop": [], "map": []}, "tree": {"kind": "popup", "open": ["f5"], "close": ["enter"]},
      "swap": {"key": "y", "where": "unh"}, "script": [["keys", "f5", "y", "a"], ["keys", "b"], Q]},
+    # mouse reports other than a plain press (modifier held; drag, release, wheel), three in one write; then
+    # type-ahead that reaches the tty in pieces cut inside an escape sequence, a UTF-8 character and a mouse report:
+    # "x ESC" | "[A" + first byte of e-acute | its second byte + "ESC [ < 5" | ";1;2M"
+    {"handled": ["up", "mouse2"], "filter": {"drop": [], "map": []},
+     "script": [["burst", [["mouse", 1, 3, 2, "press", "ctrl"], ["mouse", 1, 4, 2, "drag", "ctrl"],
+                           ["mouse", 1, 4, 2, "release", "ctrl"]], []],
+                ["burst", [["keys", "x", "up", "\u00e9"], ["mouse", 2, 0, 1, "press", "shift"]],
+                 [[0, 2], [0, 5], [1, 4]]],
+                ["mouse", 4, 5, 1, "press", "meta"], Q]},
+    # a resize that shares an input batch with keys: after a resize of its own (the screen's own loop then
+    # throttles: the keys typed right behind the next resize follow "window resize" in one batch), and a resize
+    # signalled between two keys
+    {"handled": ["a"], "filter": {"drop": [], "map": []},
+     "script": [["resize", 24, 6], ["burst", [["resize", 30, 7], ["keys", "a", "b"]], [[1, 0]]],
+                ["burst", [["keys", "x"], ["resize", 16, 4], ["keys", "y"]], [[2, 0]]], Q]},
 ]
 
 
+def sweep_sessions():
+    """delivery sweeps (run once each, no exception injected): small domains covered completely"""
+    out = []
+    plain = {"handled": [], "filter": {"drop": [], "map": []}, "faults": False}
+    # every way of cutting one multi-byte key of KEYS / one mouse report of each action in two, typed between 'a'
+    # and 'b' in one go: the continuation arrives when the screen has read the beginning
+    multi = [k for k in KEYS if len(KEYS[k].encode()) > 1]
+    for k in multi:
+        n = len(KEYS[k].encode())
+        out.append(dict(plain, script=[["burst", [["keys", "a", k, "b"]], [[0, 1 + o]]] for o in range(1, n)] + [Q]))
+    for j, action in enumerate(MOUSE_ACTIONS):
+        m = ["mouse", 1 + j, 11, 3, action, ["", "meta", "shift"][j]]
+        n = len(mouse_bytes(m))
+        out.append(dict(plain, script=[["burst", [["keys", "a"], m, ["keys", "b"]], [[1, o]]] for o in range(1, n)]
+                        + [Q]))
+    # every documented mouse event: {press 1-5, drag 1-3, release 1-3} x {no modifier, shift, meta, ctrl}
+    for mod in MOUSE_MODS:
+        script = []
+        for action in MOUSE_ACTIONS:
+            buttons = range(1, 6 if action == "press" else 4)
+            script.append(["burst", [["mouse", b, 2 * b, b % 4, action, mod] for b in buttons], []])
+        out.append(dict(plain, handled=["mouse2", "mouse5"], script=[*script, Q]))
+    # a resize before / between / behind two keys x every choice of piece boundaries x with and without a resize of
+    # its own just before (two resizes in a row make the screen's own loop wait for more input)
+    for first in (False, True):
+        for where in (0, 1, 2):
+            script, n = [], 0
+            for cuts in ([], [[1, 0]], [[2, 0]], [[1, 0], [2, 0]]):
+                n += 1
+                if first:
+                    script.append(["resize", 20 + n, 5])
+                subs = [["keys", "a"], ["keys", "b"]]
+                subs.insert(where, ["resize", 30 - n, 5 + n])
+                script.append(["burst", subs, cuts])
+            out.append(dict(plain, handled=["a"], script=[*script, Q]))
+    return out
+
+
+def gen_mouse(rng):
+    action = rng.choice(["press", "press", "release", "drag"])
+    button = rng.randint(1, 5 if action == "press" else 3)
+    return ["mouse", button, rng.randint(0, 9), rng.randint(0, 3), action, rng.choice(["", "", "shift", "meta", "ctrl"])]
+
+
+def gen_keys(rng):
+    return ["keys", *[rng.choice([k for k in KEYS if k != "q"]) for _ in range(rng.choice([1, 1, 2, 3]))]]
+
+
+def gen_burst(rng, mouse):
+    """1-3 sub-events (at most one resize) and 0-3 cuts anywhere, also inside a key's bytes"""
+    subs = []
+    for _ in range(rng.randint(1, 3)):
+        t = rng.choice(["keys", "keys", "mouse", "resize"])
+        if (t == "mouse" and not mouse) or (t == "resize" and any(sub[0] == "resize" for sub in subs)):
+            t = "keys"
+        subs.append(gen_keys(rng) if t == "keys" else gen_mouse(rng) if t == "mouse"
+                    else ["resize", rng.randint(10, 40), rng.randint(4, 9)])
+    points = [[i, o] for i, sub in enumerate(subs)
+              for o in range(1 if sub[0] == "resize" else len(event_bytes(sub))) if (i, o) != (0, 0)]
+    cuts = sorted(rng.sample(points, min(len(points), rng.choice([0, 1, 1, 2, 3]))))
+    return ["burst", subs, cuts]
+
+
 def gen_session(rng, legacy_ok):
+    mode = rng.choice(["plain", "plain", "popup", "swap", "both"])
+    mouse = mode in ("plain", "swap")  # no clicks while a pop-up may be open
     n = rng.randint(1, 7)
     script = []
     for _ in range(n):
-        t = rng.choice(["keys", "keys", "keys", "mouse", "resize", "alarm", "pipe", "file"])
+        t = rng.choice(["keys", "keys", "keys", "burst", "burst", "mouse", "resize", "alarm", "pipe", "file"])
         if t in ("pipe", "file") and legacy_ok:
             t = "alarm"
+        if t == "mouse" and not mouse:
+            t = "keys"
         if t == "keys":
-            ks = [rng.choice([k for k in KEYS if k != "q"]) for _ in range(rng.choice([1, 1, 2, 3]))]
-            script.append(["keys", *ks])
+            script.append(gen_keys(rng))
+        elif t == "burst":
+            script.append(gen_burst(rng, mouse))
         elif t == "mouse":
-            script.append(["mouse", rng.randint(1, 3), rng.randint(0, 9), rng.randint(0, 3)])
+            script.append(gen_mouse(rng))
         elif t == "resize":
             script.append(["resize", rng.randint(10, 40), rng.randint(4, 9)])
         else:
             script.append([t])
     script.append(list(Q))
     names = [k for k in KEYS if k != "q"]
-    handled = sorted(rng.sample(names, rng.randint(0, 4))) + [f"mouse{b}" for b in (1, 2, 3) if rng.random() < 0.4]
+    handled = sorted(rng.sample(names, rng.randint(0, 4))) + [f"mouse{b}" for b in (1, 2, 3, 4, 5) if rng.random() < 0.4]
     drop = sorted(rng.sample(names, rng.randint(0, 2)))
     pairs = []
     if rng.random() < 0.5:
@@ -1026,15 +1310,13 @@ def gen_session(rng, legacy_ok):
         pairs.append([a, b])
     out = {"handled": handled, "filter": {"drop": drop, "map": pairs}, "script": script}
     reach = [k for k in names if k not in drop and k not in [a for a, _b in pairs] and k != REDRAW_KEY]
-    typed = [k for ev in script if ev[0] == "keys" for k in ev[1:] if k in reach]
-    mode = rng.choice(["plain", "plain", "popup", "swap", "both"])
+    typed = [k for ev in script for k in inputs_of(ev) if isinstance(k, str) and k in reach]
     if mode in ("popup", "both"):
         # openers / closers preferably among the keys the session types
         pool = (typed + reach)[:]
         o = rng.choice(pool)
         c = rng.choice([k for k in pool if k != o])
         out["tree"] = {"kind": "popup", "open": [o], "close": [c]}
-        out["script"] = [ev for ev in script if ev[0] != "mouse"] or [list(Q)]
     if mode in ("swap", "both"):
         out["swap"] = {"key": rng.choice(typed or reach), "where": rng.choice(["key", "unh"])}
     return out
@@ -1050,6 +1332,7 @@ def units(ctx):
     sessions = [dict(s) for s in FIXED_SESSIONS]
     for _ in range(ctx.scale(2, 56)):
         sessions.append(gen_session(rng, False))
+    sessions.extend(sweep_sessions())
     out = []
     k = 0
     for si, s in enumerate(sessions):
@@ -1073,6 +1356,8 @@ def units(ctx):
                 for opt in ("tree", "swap"):
                     if s.get(opt):
                         u[opt] = s[opt]
+                if s.get("faults") is False:
+                    u["faults"] = False
                 out.append(u)
     return out
 
@@ -1153,6 +1438,9 @@ def shard(ctx):
         except Violation as v:
             failed = (u, v)
             break
+        if u.get("faults") is False:
+            ctx.count("delivery-sweep-unit")
+            continue
         if not _LAST or _LAST.get("stalled"):
             ctx.count(f"unit-without-baseline:{tag}")
             continue
